@@ -193,7 +193,9 @@ def _relation(case):
     for size in (2, 3) + ((4,) if tier == "thorough" else ()):
         for cells in arrays_of(lat, size):
             for params in presets(cmd):
-                arr = lambda: D.mk_array(cells, dtype=dt)
+                shared = D.mk_array(cells, dtype=dt)
+                pristine = shared.copy()
+                arr = lambda: shared  # both commands of a relation consume the SAME result object, as in a model
                 a = D.execute(cmd, [arr()], params)
                 tag = {"cmd": cmd, "params": params, "cells": [str(c) for c in cells], "dtype": dt}
                 evals += 1
@@ -214,6 +216,9 @@ def _relation(case):
                     q.update(StartVal=-1, EndVal=1)
                 b = D.execute(norm, [arr()], q)
                 judged += 1
+                if not _same(("ok", shared), ("ok", pristine), 0.0):
+                    viols.append(V("C08:relation:input-modified:%s" % cmd, "%s / %s modified the array they were given: %r -> %r" % (cmd, norm, pristine, shared), **tag))
+                    continue
                 if a[0] == "ok" and b[0] == "ok":
                     clamped = ("ok", numpy.ma.clip(numpy.ma.asarray(b[1]), -1, 1))
                     if not _same(a, clamped, 1e-9):
